@@ -215,7 +215,7 @@ KNOWN_CLASSES["static_assert_low_prec"] = ast_class(lambda n: _cn(n) == "StaticA
 KNOWN_CLASSES["assign_lvalue_low_prec"] = ast_class(lambda n: _cn(n) == "Assignment" and _cn(n.lvalue) in ("ExprList", "TernaryOp", "Assignment"))
 KNOWN_CLASSES["multi_alignas"] = ast_class(lambda n: _cn(n) == "Decl" and isinstance(n.align, list) and len(n.align) > 1)
 KNOWN_CLASSES["qual_next_to_atomic_pointer"] = ast_class(
-    lambda n: _cn(n) in ("Decl", "Typedef", "Typename") and n.quals and _cn(n.type) == "PtrDecl" and "_Atomic" in (n.type.quals or []) and any(q in (n.type.quals or []) for q in n.quals if q != "_Atomic"))
+    lambda n: _cn(n) in ("Decl", "Typedef", "Typename") and n.quals and _cn(n.type) == "PtrDecl" and "_Atomic" in (n.type.quals or []) and any(q in (n.type.quals or []) for q in n.quals))
 def _base_td(n):
     t = n.type
     for _ in range(64):
@@ -226,8 +226,9 @@ def _base_td(n):
 
 
 KNOWN_CLASSES["qual_inside_atomic_pointer_typename"] = ast_class(
-    lambda n: _cn(n) in ("Decl", "Typedef", "Typename") and _cn(n.type) == "PtrDecl" and "_Atomic" in (n.type.quals or []) and _base_td(n) is not None
-    and any(q not in (n.quals or []) for q in (_base_td(n).quals or [])))
+    lambda n: _cn(n) in ("Decl", "Typedef", "Typename") and _base_td(n) is not None
+    and "_Atomic" in ((n.type.quals or []) if _cn(n.type) == "PtrDecl" else (_base_td(n).quals or []))
+    and any(q not in (n.quals or []) for q in (_base_td(n).quals or []) if q != "_Atomic"))
 KNOWN_CLASSES["pragma_operator"] = ast_class(lambda n: _cn(n) == "Pragma" and not isinstance(n.string, str))
 
 
